@@ -108,6 +108,9 @@ type ScB struct {
 	// in this binary; with one poll the order cannot influence the control flow).
 	Polls   []string
 	Sleep   bool // the signaller sleeps its polling interval (1 s) between polls; otherwise polls are back to back
+	// Gaps, when set, is the virtual time slept after each poll instead (the signaller's polls in between are
+	// left out: with the single current feed in flight they request nothing)
+	Gaps []time.Duration
 	MaxTry  uint64
 	Timeout time.Duration // broadcast timeout (tx lookups are polled every second)
 }
@@ -116,6 +119,7 @@ type subInfo struct {
 	uuid     string
 	signals  []string
 	decided  int // sequence number of the decision (answer of the price service)
+	at       time.Duration // virtual time of the decision
 	firstAct int
 	lastAct  int
 	ok       bool
@@ -354,7 +358,7 @@ func (b fakeBothanB) GetPrices(ids []string) (*bothan.GetPricesResponse, error) 
 		resp.Prices = append(resp.Prices, &bothan.Price{SignalId: id, Price: 1000 + uint64(r.poll), Status: bothan.Status_STATUS_AVAILABLE})
 	}
 	if len(sorted) > 0 {
-		r.subs[uuid] = &subInfo{uuid: uuid, signals: sorted, decided: r.seq}
+		r.subs[uuid] = &subInfo{uuid: uuid, signals: sorted, decided: r.seq, at: vsched.VirtualNow()}
 		r.order = append(r.order, uuid)
 	}
 	return resp, nil
@@ -446,8 +450,15 @@ func scenarioB(sc ScB) gosched.Scenario {
 				sg.VerifExecute()
 				if len(r.order) == before {
 					r.skipped = true
+					if n := len(r.order); n > 0 && vsched.VirtualNow()-r.subs[r.order[n-1]].at > 90*time.Second {
+						r.tag("poll-skipped-signal-in-flight-for-over-90s")
+					}
 				}
-				if sc.Sleep {
+				if sc.Gaps != nil {
+					if i < len(sc.Gaps) {
+						vsched.Sleep(sc.Gaps[i])
+					}
+				} else if sc.Sleep {
 					vsched.Sleep(time.Second)
 				}
 			}
